@@ -28,7 +28,9 @@ RULE = ("exhaustive over all multisets of <= 4 ballots (every partial ranking, b
         "also 4 candidates; sent to the driver as weighted signatures) built so that two different true assertions "
         "contradicting a binding alternative order have difficulties within a relative 1e-5 of each other, the cheaper "
         "one being the optimum (70%: the cheaper one is evaluated at a leaf of the search tree, the other at an "
-        "ancestor); optional arguments on the random profiles: log=True (1 in 5; stream and stdout captured; the result "
+        "ancestor); 15% of the random profiles have interior holes in some rankings (line positions that carry no vote "
+        "for a declared candidate, as load_contests_from_raire leaves them), 15% run on a Contest object that was used "
+        "before on another CVR set of the same size; optional arguments on the random profiles: log=True (1 in 5; stream and stdout captured; the result "
         "must not change) and a positive allowed gap agap (1 in 4; 1e-9 .. 1e4; the driver evaluates the same float test; "
         "the branch tag records whether the early exit changed the result); non-trivial = >= 3 candidates (empty results included: they exercise the 'audit not possible' exits); distinct = distinct canonical input")
 EXHAUSTIVE = {"quick": False, "thorough": False}
@@ -42,7 +44,7 @@ TOL = 1e-9
 
 def ballots_of(case):
     """weighted signatures of the cards that contain the contest: [(tuple ranking, count)]"""
-    return [(tuple(r), n) for r, n in case["sigs"] if r is not None and n > 0]
+    return [(tuple(c for c in r if c is not None), n) for r, n in case["sigs"] if r is not None and n > 0]
 
 
 def irv_order(cands, wb, rng=None):
@@ -194,7 +196,9 @@ def build_inputs(case):
                 cvrs[str(k)] = {"other": {"X": 0}}
                 k += 1
         else:
-            b = {f(c): i for i, c in enumerate(r)}
+            # a `None` inside a ranking is a position of the ballot line taken by something that is not a vote for a
+            # declared candidate (a repeated or undeclared identifier: load_contests_from_raire keeps the line positions)
+            b = {f(c): i for i, c in enumerate(r) if c is not None}
             for _ in range(n):
                 cvrs[str(k)] = {CONTEST: dict(b)}
                 k += 1
@@ -203,10 +207,29 @@ def build_inputs(case):
     return contest, cvrs
 
 
+def prior_cvrs(case):
+    """`case["prior"]`: the Contest object has been used before, on ANOTHER set of CVRs of the same size (a preliminary
+    export of the same cards: the same signatures with the candidates' names permuted)"""
+    f = ident(case)
+    perm = dict(zip(case["cands"], case["prior"]))
+    cvrs, k = {}, 0
+    for r, n in case["sigs"]:
+        for _ in range(n):
+            cvrs[str(k)] = {"other": {"X": 0}} if r is None else \
+                {CONTEST: {f(perm[c]): i for i, c in enumerate(r) if c is not None}}
+            k += 1
+    return cvrs
+
+
 def run_impl(case):
     from shangrla.raire.raire import compute_raire_assertions
     from shangrla.raire.raire_utils import NEBAssertion, NENAssertion
     contest, cvrs = build_inputs(case)
+    if case.get("prior"):
+        try:   # an earlier run on the same Contest object; what it returned is not looked at
+            compute_raire_assertions(contest, prior_cvrs(case), ident(case)(case["winner"]), asn_of(case["asn"]), False)
+        except Exception:  # noqa
+            pass
     kw = {}
     if case.get("agap"):
         kw["agap"] = float(case["agap"])
@@ -302,7 +325,7 @@ def ncards(case):
 
 
 def request(case):
-    sigs = [[None if r is None else [[c, i] for i, c in enumerate(r)], n] for r, n in case["sigs"]]
+    sigs = [[None if r is None else [[c, i] for i, c in enumerate(r) if c is not None], n] for r, n in case["sigs"]]
     a = {"cands": case["cands"], "winner": case["winner"], "tot": case["tot"], "outcome": case["outcome"],
          "asn": case["asn"], "fuel": FUEL}
     if case.get("agap"):
@@ -350,6 +373,10 @@ def signature(case, ir):
     hint = "nohint" if not case["outcome"] else "hint"
     if case.get("log"):
         hint += ";log"
+    if case.get("prior"):
+        hint += ";reused"
+    if any(r is not None and None in r for r, _ in case["sigs"]):
+        hint += ";holes"
     if case.get("agap"):
         hint += ";agap:" + ("changed" if ir.get("gap_changed") else "same")
     if not res:
@@ -499,6 +526,11 @@ def with_options(rng, case):
     early exit has a chance to fire before the search is over -- the rest from 1e-9 to 1e4"""
     if rng.chance(0.2):
         case["log"] = True
+    if rng.chance(0.15) and len(case["cands"]) >= 2:
+        p = list(case["cands"])
+        while p == list(case["cands"]):
+            rng.shuffle(p)
+        case["prior"] = p
     if rng.chance(0.25):
         g = None
         if rng.chance(0.6) and len(case["cands"]) <= 5:
@@ -555,7 +587,15 @@ def gen_random(rng):
             break
         sigs.append([None if key is None else list(key), n])
         left -= n
-    wb = [(tuple(r), n) for r, n in sigs if r is not None]
+    if rng.chance(0.15):
+        # interior holes: positions of the line that carry no vote for a declared candidate (never the first position)
+        for sg in sigs:
+            if sg[0] and rng.chance(0.5):
+                r = list(sg[0])
+                for _ in range(rng.randint(1, 2)):
+                    r.insert(rng.randint(1, len(r)), None)
+                sg[0] = r
+    wb = [(tuple(c for c in r if c is not None), n) for r, n in sigs if r is not None]
     true_order = irv_order(cands, wb, rng)
     u = rng.random()
     winner = true_order[-1] if u < 0.7 else rng.choice(cands)
